@@ -692,7 +692,8 @@ void cmb_dataset_PACF(const struct cmb_dataset *dsp,
         /* The k-th PACF coefficient is the k-th autoregression
          * coefficient phi[k][k]
          */
-        phi[uk][uk] = (acf[uk] - numsum) / (1.0 - densum);
+        const double den = 1.0 - densum;
+        phi[uk][uk] = (den != 0.0) ? (acf[uk] - numsum) / den : 0.0;
         pacf[uk] = phi[uk][uk];
         cmb_assert_debug((pacf[uk] >= -1.0) && (pacf[uk] <= 1.0));
 
